@@ -1107,6 +1107,30 @@ func (e *c09Env) opCtx(v RegionVerID) *RPCContext {
 	return out
 }
 
+// GetTiKVRPCContext for replica reads (follower / mixed / prefer-leader / learner = leader path), option leaderOnly
+func (e *c09Env) opCtxRead(v RegionVerID, kind kv.ReplicaReadType, seed uint32, leaderOnly bool) {
+	names := map[kv.ReplicaReadType]string{kv.ReplicaReadLeader: "leader", kv.ReplicaReadFollower: "follower", kv.ReplicaReadMixed: "mixed",
+		kv.ReplicaReadPreferLeader: "preferleader", kv.ReplicaReadLearner: "learner"}
+	lo := "0"
+	if leaderOnly {
+		lo = "1"
+	}
+	e.op("ctxread", []string{c09Ver(v), names[kind], fmt.Sprint(seed), lo}, func() string {
+		var opts []StoreSelectorOption
+		if leaderOnly {
+			opts = append(opts, WithLeaderOnly())
+		}
+		ctx, err := e.cache.GetTiKVRPCContext(e.bo(), v, kind, seed, opts...)
+		if err != nil {
+			return c09Err(err)
+		}
+		if ctx == nil {
+			return "none"
+		}
+		return fmt.Sprintf("ok %d:%d %d", ctx.Peer.GetId(), ctx.Peer.GetStoreId(), int(ctx.AccessIdx))
+	})
+}
+
 // one request round at the level of the cache API: locate, pick the work peer, ask the store, react to the region
 // error the way RegionRequestSender.onRegionError does without a replica selector. Returns true on success.
 func (e *c09Env) round(k []byte) bool {
@@ -1238,8 +1262,18 @@ func (e *c09Env) cacheOp() {
 	case x < 25:
 		reasons := []InvalidReason{NoLeader, RegionNotFound, EpochNotMatch, StoreNotFound, Other}
 		e.opInval(r.VerID(), reasons[e.rng.Intn(len(reasons))])
-	case x < 45:
+	case x < 37:
 		e.opExpire(r)
+	case x < 45:
+		// replica reads: three contexts with random kind, seed (also around the uint32 wrap) and leaderOnly
+		kinds := []kv.ReplicaReadType{kv.ReplicaReadFollower, kv.ReplicaReadFollower, kv.ReplicaReadMixed, kv.ReplicaReadMixed, kv.ReplicaReadPreferLeader, kv.ReplicaReadLearner, kv.ReplicaReadLeader}
+		for i := 0; i < 3; i++ {
+			seed := uint32(e.rng.Intn(64))
+			if e.rng.Intn(4) == 0 {
+				seed = ^uint32(0) - uint32(e.rng.Intn(4))
+			}
+			e.opCtxRead(r.VerID(), kinds[e.rng.Intn(len(kinds))], seed, e.rng.Intn(5) == 0)
+		}
 	case x < 65:
 		bits := []int32{needReloadOnAccess, needDelayedReloadPending, needDelayedReloadReady}
 		e.opFlag(r, bits[e.rng.Intn(3)])
@@ -1843,6 +1877,38 @@ func VerifC09Main(args []string) int {
 			ctx, err := e.cache.GetTiKVRPCContext(e.bo(), r.VerID(), kv.ReplicaReadLeader, 0)
 			fmt.Fprintf(w, "GetTiKVRPCContext = %v err=%v\n", ctx, err)
 		}()
+		return 0
+	}
+	if len(args) >= 1 && args[0] == "probe-follower-wrap" {
+		// observation: a region with four peers, leader first; somebody failed on the stores of followers 1 and 2; follower 3 is fine.
+		// regionStore.follower tries seed, seed+1, seed+2 modulo 3 — with seed 2^32-1 the uint32 wraps: 1, 1, 2.
+		var e *c09Env
+		for sd := int64(1); ; sd++ {
+			if e = c09NewEnv(w, sd, -1, false); len(e.stores) >= 4 {
+				break
+			}
+		}
+		meta := &metapb.Region{Id: 500, RegionEpoch: &metapb.RegionEpoch{Version: 1, ConfVer: 1},
+			Peers: []*metapb.Peer{{Id: 600, StoreId: e.stores[0]}, {Id: 601, StoreId: e.stores[1]}, {Id: 602, StoreId: e.stores[2]}, {Id: 603, StoreId: e.stores[3]}}}
+		r, err := newRegion(e.bo(), e.cache, &router.Region{Meta: meta, Leader: meta.Peers[0]})
+		if err != nil {
+			fmt.Fprintf(w, "newRegion err=%v\n", err)
+			return 0
+		}
+		e.cache.mu.Lock()
+		e.cache.insertRegionToCache(r, true, true)
+		e.cache.mu.Unlock()
+		for _, ai := range []AccessIndex{1, 2} {
+			e.cache.OnSendFail(e.bo(), &RPCContext{Region: r.VerID(), Meta: r.meta, AccessIdx: ai, AccessMode: tiKVOnly}, false, fmt.Errorf("send failed"))
+		}
+		for _, seed := range []uint32{^uint32(0), ^uint32(0) - 1, 0, 1, 2} {
+			ctx, err := e.cache.GetTiKVRPCContext(e.bo(), r.VerID(), kv.ReplicaReadFollower, seed)
+			if ctx == nil {
+				fmt.Fprintf(w, "PROBE\tseed=%d\tnone err=%v\n", seed, err)
+			} else {
+				fmt.Fprintf(w, "PROBE\tseed=%d\tpeer=%d accessIdx=%d\n", seed, ctx.Peer.GetId(), int(ctx.AccessIdx))
+			}
+		}
 		return 0
 	}
 	if len(args) >= 1 && args[0] == "probe-bucket" {
